@@ -10,7 +10,7 @@ in a scope that has ended - parameters of another def / async def / lambda, name
 comprehension variables, an `except ... as` name after its handler, a deleted name - so the names are still unbound
 at the line;
 layout: a trailing `# comment`, an empty line in front; LINE ENDS: the whole program, bare and explicit alike, with
-CRLF (thorough: also lone CR) line ends, as a file saved with that convention contains them).  From the SAME derivation the generator renders the bare program and its explicit
+CRLF line ends, as a file saved with that convention contains them).  From the SAME derivation the generator renders the bare program and its explicit
 twin (each segment wrapped in `![...]` by the generator; subproc_toks is never used to build the twin).  All
 derivations within the stated deviation bounds are enumerated (never sampled).
   Oracle (from the statement "behaves exactly as if the user had wrapped each segment in ![...] by hand"):
@@ -56,6 +56,9 @@ Does NOT require (never flagged):
     difference);
   * repeatability of threaded pipelines (a trace difference of a pair with threaded commands counts only if it
     shows three times in a row);
+  * lone-CR line ends: xonsh itself does not treat a lone CR as a line end inside ![...] (`![ca \\<CR>1]` passes the
+    backslash and the CR on as argument text, and many lone-CR twins are rejected), so the hand-wrapped form is no
+    reference there; only LF and CRLF programs are enumerated;
   * error messages, line/column numbers, how many retries detection needs (below the budget).
 """
 
